@@ -301,7 +301,7 @@ func runC17(c *Ctx) {
 		gp := c.Fn("p2p:(*Peer).getProto")
 		c.MustOnAccept("C17-R3", gp, -1, false, []LitReq{
 			{Name: "getProto: code >= offset of the selected protocol", Re: `^uint64#0 >= .*\.offset$`},
-			{Name: "getProto: code < offset + Length of the selected protocol (exclusive upper bound)", Re: `^uint64#0 < \(.*\.offset \+ .*\.Length\)$`},
+			{Name: "getProto: code < offset + Length of the selected protocol (exclusive upper bound)", Re: `^(uint64#0 < \(.*\.offset \+ .*\.Length\)|\(uint64#0 - .*\.offset\) < .*\.Length)$`},
 		})
 	})
 	c.Min("C17-R3", 16)
